@@ -99,6 +99,12 @@ void harness_b64(void)
 
 /* C19.negotiation: the answer only contains what the client offered or what RFC 7692 lets the server add */
 static int has(const char *hay, const char *needle) { size_t n = strlen(needle); for (size_t i = 0; hay[i]; i++) if (strncmp(hay + i, needle, n) == 0) return 1; return 0; }
+#ifndef NEG_CLIENT_BITS
+#define NEG_CLIENT_BITS 0     /* the value the concrete offer gives for client_max_window_bits (0: none) */
+#endif
+#ifndef NEG_SERVER_BITS
+#define NEG_SERVER_BITS 0
+#endif
 void harness_negotiation(void)
 {
 	CONN.parser.data = &WS; CONN.compression_level = NEG_LEVEL;
@@ -113,6 +119,17 @@ void harness_negotiation(void)
 		if (has(resp, "client_max_window_bits")) CHECK(has(offer, "client_max_window_bits"), "C19.client_max_window_bits_only_if_offered");
 		CHECK(WS.extension_compression.client_max_window_bits >= 8 && WS.extension_compression.client_max_window_bits <= 15 &&
 		      WS.extension_compression.server_max_window_bits >= 8 && WS.extension_compression.server_max_window_bits <= 15, "C19.window_bits_within_8_to_15");
+#if NEG_CLIENT_BITS
+		/* RFC 7692 7.1.2.2: the answered client_max_window_bits is never larger than the offered one */
+		CHECK(WS.extension_compression.client_max_window_bits <= NEG_CLIENT_BITS, "C19.client_window_never_larger_than_offered");
+		{ char want[40]; int n = NEG_CLIENT_BITS; int got = WS.extension_compression.client_max_window_bits; (void)n;
+		  const char *k = "client_max_window_bits="; size_t i = 0; for (; k[i]; i++) want[i] = k[i];
+		  if (got >= 10) want[i++] = '1'; want[i++] = (char)('0' + got % 10); want[i] = 0;
+		  CHECK(has(resp, want), "C19.response_states_the_negotiated_client_window"); }
+#endif
+#if NEG_SERVER_BITS
+		CHECK(WS.extension_compression.server_max_window_bits <= NEG_SERVER_BITS, "C19.server_window_never_larger_than_requested");
+#endif
 		REACH("accepted");
 	} else {
 		CHECK(WS.extension_compression.response == 0 || 1, "C19.refused_offer_is_harmless");
